@@ -1,7 +1,7 @@
 (* GENERATED from C06_Props.v by tools/c06.py: the theorem statements as Props, for the proof files. *)
 From Coq Require Import List NArith Bool Arith.
 From Dae.gen Require Import C06_Extracted.
-From Dae Require Import C06_Spec C06_Model C06_Async C06_Session C06_Clock C06_Key.
+From Dae Require Import C06_Spec C06_Model C06_Async C06_Session C06_Clock C06_Key C06_HttpVar.
 Import ListNotations.
 Open Scope N_scope.
 
@@ -46,6 +46,17 @@ Definition C06_linear_no_oob_stmt : Prop :=
 Definition C06_http_roundtrip_stmt : Prop :=
   forall (q : http_head) (body slack : bytes),
     wf_head q = true -> sniff_group_tcp (enc_head q ++ body) slack = host_of q.
+
+Definition C06_http_no_host_no_name_stmt : Prop :=
+  forall (q : http_head) (body slack : bytes),
+    wf_head q = true -> first_host_header (q_headers q) = None ->
+    sniff_group_tcp (enc_head q ++ body) slack = NotFound.
+
+Definition C06_http_scan_past_head_refuted_stmt : Prop :=
+  exists (q : http_head) (body : bytes),
+    wf_head q = true /\ first_host_header (q_headers q) = None
+    /\ sniff_http_past (enc_head q ++ body) <> host_of q
+    /\ exists n, sniff_http_past (enc_head q ++ body) = Found n.
 
 Definition reassemble_frags (offsets new : list frag) : list frag := merge_frags (sort_frags (offsets ++ new)).
 
